@@ -92,7 +92,7 @@ func MinimalEnv(extra ...string) []string {
 // RunPlugin runs the plugin binary on a request.
 func RunPlugin(bin string, req []byte, o RunOpts) RunResult {
 	if o.Timeout == 0 {
-		o.Timeout = 60 * time.Second
+		o.Timeout = 5 * time.Minute // a watchdog, not a property: a loaded machine with GOGC=1 and GOMAXPROCS=1 can take long
 	}
 	ctx, cancel := context.WithTimeout(context.Background(), o.Timeout)
 	defer cancel()
